@@ -487,7 +487,21 @@ impl Names {
     /// the underlying data if it's stale.
     fn available(&self, path: &Path) -> Vec<String> {
         let mut inner = self.inner.write().unwrap();
+        #[cfg(jiff_verif)]
+        crate::__verif::emit("names_avail_begin", "", 0, 0);
+        #[cfg(jiff_verif)]
+        let refreshed = inner.expiration.is_expired();
         inner.attempt_refresh(path);
+        #[cfg(jiff_verif)]
+        {
+            let names = inner.available();
+            crate::__verif::emit(
+                "names_avail",
+                &names.join(","),
+                names.len() as i64,
+                if refreshed { 1 } else { 0 },
+            );
+        }
         inner.available()
     }
 
